@@ -1,5 +1,7 @@
 //! C05 / C04 harness: drives the real `lattices` crate and writes the transcript for the Lean
 //! driver `hvdrv_latspec` plus the property oracles.
+mod c04;
+mod c04uf;
 mod c05;
 
 use hv_common::{Args, Recorder};
@@ -33,6 +35,14 @@ fn main() {
         "c05" => {
             rec = Recorder::new(c05::RULE);
             c05::run(&args, &mut rec);
+        }
+        "c04uf" => {
+            rec = Recorder::new(c04uf::RULE);
+            c04uf::run(&args, &mut rec);
+        }
+        "c04" => {
+            rec = Recorder::new(c04::RULE);
+            c04::run(&args, &mut rec);
         }
         m => {
             eprintln!("unknown mode {m}");
